@@ -77,6 +77,9 @@ func digestOf(k sessKind, m *ir.Module, inst *spirv.Backend) string {
 			}
 			put(drive.Compile("glsl", opt, m, ep.Name))
 		}
+	case "gspv":
+		// the one-call SPIR-V entry point of package naga (its own path to the backend)
+		put(naga.GenerateSPIRV(m, drive.SpvOptions(k.Opt)))
 	case "validate":
 		errs, err := naga.Validate(m)
 		put([]byte(fmt.Sprint(errs)), err)
@@ -350,7 +353,8 @@ func runC12(tier, replay string) int {
 
 	// ---- design level: the specification itself ------------------------------------------------
 	kindsAll := []sessKind{{"spv", "default"}, {"spv", "v1.3"}, {"inst", "default"}, {"hlsl", "default"}, {"msl", "default"},
-		{"glsl", "430"}, {"dxil", "default"}, {"validate", "-"}, {"overrides", "-"}, {"msl", "pc"}, {"glsl", "pc"}}
+		{"glsl", "430"}, {"dxil", "default"}, {"validate", "-"}, {"overrides", "-"}, {"msl", "pc"}, {"glsl", "pc"},
+		{"gspv", "default"}, {"gspv", "noloopbound"}}
 	designKinds := []sessKind{{"spv", "default"}, {"inst", "default"}, {"hlsl", "default"}, {"dxil", "default"}, {"overrides", "-"}}
 	mc := sessionMC(designKinds, 2, []int{1, 2})
 	r, err := c.RunTLC(core.TLCOpts{Spec: "SessionMC", Files: map[string][]byte{"SessionMC.tla": []byte(mc), "trace.ndjson": []byte("{\"ev\":\"reset\"}\n")},
